@@ -29,6 +29,8 @@
 EXTENDS Integers, Sequences, TLC, Json
 
 CONSTANTS UnsupportedRule,   \* "rewrite" | "pass"
+          HeadRule,          \* "rewrite" (as coded: a response to HEAD goes through the same rewrite) | "pass" (repaired)
+          CtRule,            \* "casesensitive" (as coded) | "caseinsensitive" (repaired)
           ParseRule,         \* "scripting" (as coded: html.Parse) | "noscripting" (plausible bug for the negative config)
           CspRule,           \* "firstline" (as coded: first header line, no policy-list splitting) | "policylist" (repaired)
           LengthRule,        \* "set" (as coded) | "forget" (plausible bug for the negative config)
@@ -38,7 +40,8 @@ VARIABLES cfg, hdr, body, pc, path
 
 vars == <<cfg, hdr, body, pc, path>>
 
-ContentTypes == {"html", "htmlcharset", "other", "none"}
+ContentTypes == {"html", "htmlcharset", "htmlcase", "other", "none"}   \* htmlcase: TEXT/HTML, Text/Html; charset=utf-8 ...
+Methods      == {"GET", "HEAD"}
 Encodings    == {"none", "gzip", "br", "unsupported"}
 Requests     == {"plain", "htmx"}
 Csps         == {"none", "scriptsrc", "several", "otheronly", "nononce", "afterother", "defaultfirst",
@@ -47,7 +50,10 @@ Bodies       == {"empty", "fragment", "full", "scriptbody", "nonascii", "scripts
                  "noscripthead", "noscriptbody", "noscriptmeta", "rawtext"}
 Accepts      == {"browser", "absent"}
 
-IsHtml(ct) == ct \in {"html", "htmlcharset"}           \* strings.HasPrefix(contentType, "text/html")
+IsHtml(ct) == ct \in {"html", "htmlcharset", "htmlcase"}   \* the media type is text/html (media types are case-insensitive)
+\* the gate in modifyResponse. CtRule "casesensitive": as coded, strings.HasPrefix(contentType, "text/html");
+\*                         "caseinsensitive": repaired, the prefix test on the lower-cased value
+GateHtml(ct) == ct \in {"html", "htmlcharset"} \/ (ct = "htmlcase" /\ CtRule = "caseinsensitive")
 
 -----------------------------------------------------------------------------
 (* Documents. A body shape is a skeleton (nothing / a fragment without html-head-body tags / a full page / a
@@ -194,10 +200,18 @@ NonceBranch(csp) ==
       [] OTHER                               -> "ParseNonce.Found"
 
 Init ==
-    /\ cfg \in [ct : ContentTypes, enc : Encodings, req : Requests, skip : BOOLEAN, csp : Csps,
-                body : Bodies, accept : Accepts]
-    /\ hdr = [ct |-> cfg.ct, enc |-> cfg.enc, skip |-> cfg.skip, csp |-> cfg.csp, cl |-> "match"]
-    /\ body = [doc |-> cfg.body, items |-> [i \in 1..Len(Doc(cfg.body).items) |-> "backend"], inserted |-> 0, nonce |-> NoNonce, coding |-> cfg.enc, bytes |-> "backend"]
+    \* GET with lower-case content types: the full product; HEAD (no body on the wire, whatever document the GET would
+    \* return) and the other spellings of text/html: crossed with everything the decision depends on, two CSP shapes,
+    \* one document
+    /\ cfg \in [method : {"GET"}, ct : ContentTypes \ {"htmlcase"}, enc : Encodings, req : Requests, skip : BOOLEAN,
+                 csp : Csps, body : Bodies, accept : Accepts]
+            \cup [method : {"HEAD"}, ct : ContentTypes, enc : Encodings, req : Requests, skip : BOOLEAN,
+                  csp : {"none", "scriptsrc"}, body : {"full", "empty"}, accept : Accepts]
+            \cup [method : {"GET"}, ct : {"htmlcase"}, enc : Encodings, req : Requests, skip : BOOLEAN,
+                  csp : {"none", "scriptsrc"}, body : {"full"}, accept : Accepts]
+    /\ hdr = [status |-> "ok", ct |-> cfg.ct, enc |-> cfg.enc, skip |-> cfg.skip, csp |-> cfg.csp, cl |-> "match"]
+    /\ body = [doc |-> cfg.body, items |-> [i \in 1..Len(Doc(cfg.body).items) |-> "backend"], inserted |-> 0, nonce |-> NoNonce, coding |-> cfg.enc,
+               bytes |-> IF cfg.method = "HEAD" THEN "nobody" ELSE "backend"]
     /\ pc = "transport"
     /\ path = <<>>
 
@@ -205,7 +219,7 @@ Go(next, what) == pc' = next /\ path' = Append(path, what)
 
 Transport ==
     /\ pc = "transport"
-    /\ IF cfg.accept = "absent" /\ hdr.enc = "gzip"
+    /\ IF cfg.accept = "absent" /\ hdr.enc = "gzip" /\ cfg.method = "GET"     \* (the transport does not ask for gzip on HEAD)
        THEN /\ hdr' = [hdr EXCEPT !.enc = "none", !.cl = "absent"]
             /\ body' = [body EXCEPT !.coding = "none", !.bytes = "gunzipped"]
             /\ Go("mark", "Transport.TransparentGunzip")
@@ -221,9 +235,12 @@ MarkHtmx ==
 
 Decide ==
     /\ pc = "decide"
-    /\ CASE hdr.skip -> Go("deliver", "Decide.SkipMarker")
-         [] ~hdr.skip /\ ~IsHtml(hdr.ct) -> Go("deliver", "Decide.NotHtml")
-         [] ~hdr.skip /\ IsHtml(hdr.ct) /\ hdr.enc = "unsupported" ->
+    /\ CASE cfg.method = "HEAD" /\ HeadRule = "pass" -> Go("deliver", "Decide.HeadPasses")
+         [] OTHER ->
+       CASE hdr.skip -> Go("deliver", "Decide.SkipMarker")
+         [] ~hdr.skip /\ ~GateHtml(hdr.ct) ->
+                Go("deliver", IF IsHtml(hdr.ct) THEN "Decide.NotHtml.CaseSensitivePrefix" ELSE "Decide.NotHtml")
+         [] ~hdr.skip /\ GateHtml(hdr.ct) /\ hdr.enc = "unsupported" ->
                 IF UnsupportedRule = "pass" THEN Go("deliver", "Decide.UnsupportedEncodingPasses")
                 ELSE Go("decode", "Decide.UnsupportedEncodingFallsThrough")
          [] OTHER -> Go("decode", "Decide.Rewrite")
@@ -232,14 +249,24 @@ Decide ==
 \* gzip / br: real decoder; none: identity; unsupported (as coded): identity reader over encoded bytes
 Decode ==
     /\ pc = "decode"
-    /\ IF hdr.enc \in {"gzip", "br"}
-       THEN body' = [body EXCEPT !.coding = "none", !.bytes = "decoded"] /\ Go("insert", "Decode." \o hdr.enc)
-       ELSE UNCHANGED body /\ Go("insert", "Decode.Identity")
-    /\ UNCHANGED <<cfg, hdr>>
+    /\ IF cfg.method = "HEAD" /\ hdr.enc = "gzip"
+       THEN \* gzip.NewReader on the empty body of a HEAD response: EOF; modifyResponse returns the error and
+            \* ReverseProxy answers 502 Bad Gateway
+            /\ hdr' = [hdr EXCEPT !.status = "badgateway", !.cl = "absent"]
+            /\ UNCHANGED body /\ Go("deliver", "Head.GzipReaderFailsOnEmptyBody")
+       ELSE /\ UNCHANGED hdr
+            /\ IF hdr.enc \in {"gzip", "br"} /\ cfg.method = "GET"
+               THEN body' = [body EXCEPT !.coding = "none", !.bytes = "decoded"] /\ Go("insert", "Decode." \o hdr.enc)
+               ELSE UNCHANGED body /\ Go("insert", "Decode.Identity")
+    /\ UNCHANGED cfg
 
 Insert ==
     /\ pc = "insert"
-    /\ IF body.coding # "none"
+    /\ IF cfg.method = "HEAD"
+       THEN \* nothing on the wire: the empty text parses to html/head/body, the script goes into that synthetic page
+            /\ body' = [body EXCEPT !.bytes = "synthetic", !.inserted = 1, !.nonce = ParseNonce(hdr.csp)]
+            /\ Go("encode", "Head.ScriptIntoSyntheticDocument")
+       ELSE IF body.coding # "none"
        THEN \* encoded bytes parsed as if they were HTML: whatever comes out is not the document any more
             /\ body' = [body EXCEPT !.bytes = "mangled", !.inserted = 1, !.nonce = ParseNonce(hdr.csp)]
             /\ pc' = "encode" /\ path' = path \o <<"Insert.IntoEncodedBytes", NonceBranch(hdr.csp)>>
@@ -262,7 +289,9 @@ Encode ==
 
 SetLength ==
     /\ pc = "length"
-    /\ IF LengthRule = "set" THEN hdr' = [hdr EXCEPT !.cl = "match"] ELSE UNCHANGED hdr
+    /\ IF LengthRule = "set"
+       THEN hdr' = [hdr EXCEPT !.cl = IF cfg.method = "HEAD" THEN "synthetic" ELSE "match"]   \* HEAD: the length of a page nobody serves
+       ELSE UNCHANGED hdr
     /\ Go("deliver", "SetLength")
     /\ UNCHANGED <<cfg, body>>
 
@@ -279,6 +308,7 @@ Spec == Init /\ [][Next]_vars
 Done == pc = "done"
 
 \* which exchanges C20 says must pass through
+Get == cfg.method = "GET"
 MustPass == \/ ~IsHtml(cfg.ct) \/ cfg.enc = "unsupported" \/ cfg.req = "htmx" \/ cfg.skip
 
 \* the bytes are the backend's; the only tolerated difference is the Go transport's own transparent gunzip
@@ -287,10 +317,10 @@ Untouched == /\ body.inserted = 0
              /\ \/ body.bytes = "backend" /\ hdr.enc = cfg.enc /\ body.coding = cfg.enc
                 \/ body.bytes = "gunzipped" /\ cfg.accept = "absent" /\ cfg.enc = "gzip" /\ hdr.enc = "none"
 
-PassThroughIsIdentity == (Done /\ MustPass) => (Untouched /\ hdr.ct = cfg.ct /\ hdr.csp = cfg.csp)
+PassThroughIsIdentity == (Done /\ Get /\ MustPass) => (Untouched /\ hdr.ct = cfg.ct /\ hdr.csp = cfg.csp)
 
 HtmlGetsExactlyOneScript ==
-    (Done /\ ~MustPass) =>
+    (Done /\ Get /\ ~MustPass) =>
         /\ body.doc = cfg.body /\ body.bytes # "mangled"
         /\ body.inserted = (IF HasBody(cfg.body) THEN 1 ELSE 0)
         /\ body.inserted = 1 => (IF ScriptNonces(cfg.csp) = {} THEN body.nonce = NoNonce
@@ -299,11 +329,16 @@ HtmlGetsExactlyOneScript ==
 \* C20 "the same document": apart from the appended script nothing a scripting browser reads has changed -- in
 \* particular the content of every element that is not ordinary markup (raw text, RCDATA, noscript) is what it was
 DocumentOnlyAppendedTo ==
-    (Done /\ ~MustPass) => \A i \in DOMAIN body.items : body.items[i] \in {"backend", "preserved"}
+    (Done /\ Get /\ ~MustPass) => \A i \in DOMAIN body.items : body.items[i] \in {"backend", "preserved"}
 
-LengthMatchesBody == Done => (hdr.cl = "match" \/ (hdr.cl = "absent" /\ body.bytes = "gunzipped"))
+LengthMatchesBody == (Done /\ Get) => (hdr.cl = "match" \/ (hdr.cl = "absent" /\ body.bytes = "gunzipped"))
 
-EncodingHeaderDescribesBody == Done => (hdr.enc = body.coding /\ body.bytes # "mangled")
+\* C20 for a response without body (HEAD): there is nothing to append the script to, so nothing may change -- the status,
+\* the declared length (that of the resource), the encoding and type headers are the upstream's
+HeadIsUntouched ==
+    (Done /\ ~Get) => (hdr.status = "ok" /\ hdr.cl = "match" /\ hdr.enc = cfg.enc /\ hdr.ct = cfg.ct /\ body.inserted = 0)
+
+EncodingHeaderDescribesBody == (Done /\ Get) => (hdr.enc = body.coding /\ body.bytes # "mangled")
 
 TypeOK == /\ pc \in {"transport", "mark", "decide", "decode", "insert", "encode", "length", "deliver", "done"}
           /\ body.inserted \in {0, 1}
@@ -312,5 +347,5 @@ TypeOK == /\ pc \in {"transport", "mark", "decide", "decode", "insert", "encode"
 EmitCase == (EmitCases /\ Done) =>
     PrintT(<<"CASE", ToJson([cfg |-> cfg, path |-> path, mustpass |-> MustPass, inserted |-> body.inserted,
                              nonce |-> body.nonce, nonces |-> ScriptNonces(cfg.csp), csplines |-> CspLines(cfg.csp), doc |-> Doc(cfg.body), fates |-> body.items, enc |-> hdr.enc, cl |-> hdr.cl,
-                             bytes |-> body.bytes])>>)
+                             status |-> hdr.status, bytes |-> body.bytes])>>)
 =============================================================================
